@@ -322,7 +322,7 @@ func c17Agree(name string, args []string, r rv, j map[string]any) string {
 func c17Setup(c *Cli, state string) map[string]string {
 	switch state {
 	case "empty":
-		return map[string]string{"@W": Sha1Sum(catScriptW), "@R": Sha1Sum(catScriptR)}
+		return map[string]string{"@W": Sha1Sum(catScriptW), "@R": Sha1Sum(catScriptR), "@F": Sha1Sum("return FIELDS.f == 1")}
 	case "escaping":
 		sha := catSetup(c)
 		c.Do("SET", `k"q`, `id"\`, "FIELD", `f"n`, "v\"\x01\\", "STRING", "va\"l\\ue\n\xff\x00end")
